@@ -143,6 +143,10 @@ func monC01(tr *Trace, br map[string]int) (out []Violation) {
 		if len(c.res) > 0 && c.res[0] == "panic" {
 			return // a panic is C06's business; the state it leaves behind is not a history the chain would commit
 		}
+		if kind == "reimport" {
+			// a chain restarted from an export: record ids of resolved records may be handed out again (the document carries no counter)
+			resolved = map[string]string{}
+		}
 		preU := map[string]*Utxr{}
 		for _, u := range c.pre.Utxrs {
 			preU[fmt.Sprintf("%d:%d", u.Tenant, u.Id)] = u
@@ -1115,6 +1119,9 @@ func monC11(tr *Trace, br map[string]int) (out []Violation) {
 func monC12(tr *Trace, br map[string]int) (out []Violation) {
 	maxIssued := map[uint64]int64{}
 	walk(tr, func(c *ctxStep) {
+		if c.op[0] == "reimport" {
+			maxIssued = map[uint64]int64{} // the statement is about one chain lifetime
+		}
 		if c.op[0] == "record" && c.res[0] == "ok" {
 			t := pu(c.op[2])
 			req := c.op[3]
@@ -1480,6 +1487,17 @@ func monC17(tr *Trace, br map[string]int) (out []Violation) {
 				br["c17:with-delegations"]++
 			}
 			continue
+		}
+		if strings.HasPrefix(s.Op, "reimport") {
+			br["c17:restart"]++
+			if strings.HasPrefix(s.Res, "panic") {
+				out = append(out, viol("C17", "import-panics", i, "import of the exported genesis panics: %s", s.Detail))
+			} else if s.Dump != nil {
+				a, b := genesisLines(last), genesisLines(s.Dump)
+				if strings.Join(a, "\n") != strings.Join(b, "\n") {
+					out = append(out, viol("C17", "state-differs", i, "state after a restart from the export differs:\n- %s\n+ %s", strings.Join(diffLines(a, b), "\n- "), strings.Join(diffLines(b, a), "\n+ ")))
+				}
+			}
 		}
 		if s.Dump != nil {
 			last = s.Dump
